@@ -233,6 +233,10 @@ def plan_C11(seed, run, engine, tier="quick"):
 def plan_C18(seed, run, engine, tier="quick"):
     rng = G.rng_for(seed, "C18", run)
     cls0 = _pick_cls(rng)
+    if engine == "twin" and rng.random() < 0.2:
+        # fit, path *and solve*: a solver object is user-held state as well (sim/reuse.py)
+        from . import reuse
+        return reuse.make_plan(seed, run, engine, rng)
     args0, ds0 = _new_model(rng, cls0, ample=rng.random() < 0.5)
     if cls0 == "GeneralizedLinearEstimator" and rng.random() < 0.3:
         # a solver that carries a user-supplied array of its own (PDCD_WS.dual_init)
